@@ -32,6 +32,8 @@ type chainShape struct {
 	// 'X' = before the measured request the router served a request in which a handler aborted and a suspended middleware
 	// then panicked (no OnPanic hook: the panic reached the caller). 'D' = rux's debug mode is on (process-global: such
 	// chains run alone, every other chain holds a read lock meanwhile).
+	// 'S' = the group's middleware is added with one Use call each inside the group (spare slice capacity) and a SIBLING
+	// route with a route-level middleware of its own is registered in the same group after the measured route.
 	// 'C' = the router caches dynamic matches, the route is dynamic (/x/{id}) and the measured request is the SECOND
 	// identical one (answered from the route cache).
 	Hooks string `json:"hooks,omitempty"`
@@ -196,6 +198,22 @@ func runChain(sh chainShape, table map[byte]refmodel.Behaviour) (obs chainObs, b
 			}
 		})
 	}
+	if sh.Via == "notfound-custom-first" {
+		// the chain is: n-1 global middleware around a custom NotFound handler that was installed BEFORE they were added
+		regPanic = try(func() {
+			r.NotFound(hs[n-1])
+			for i := 0; i < n-1; i++ {
+				r.Use(hs[i])
+			}
+		})
+		if regPanic != nil {
+			return
+		}
+		w := httptest.NewRecorder()
+		obs.pv = try(func() { r.ServeHTTP(w, httptest.NewRequest("GET", "/no/such/route", nil)) })
+		obs.events, obs.status, obs.body = log, w.Code, w.Body.String()
+		return
+	}
 	if sh.Via == "notfound" {
 		// the chain is: n-1 global middleware around the built-in not-found responder (no route matches)
 		regPanic = try(func() {
@@ -233,7 +251,16 @@ func runChain(sh chainShape, table map[byte]refmodel.Behaviour) (obs chainObs, b
 				r.GET(routePath, hs[n-1], rm...)
 			}
 		}
-		if p > 0 {
+		if p > 0 && strings.Contains(sh.Hooks, "S") {
+			r.Group("/", func() {
+				for _, m := range hs[g : g+p] {
+					r.Use(m)
+				}
+				reg()
+				r.GET("/sibling", func(*rux.Context) {}).Use(func(*rux.Context) {})
+				r.GET("/sibling2", func(*rux.Context) {}, func(*rux.Context) {}, func(*rux.Context) {})
+			})
+		} else if p > 0 {
 			r.Group("/", reg, hs[g:g+p]...)
 		} else {
 			reg()
